@@ -191,6 +191,81 @@ theorem C19_transparent_named {ν : Type} [DecidableEq ν] (mode : SaveMode) (si
     have := C19_transparent mode size fn _ (named name inputs) hr FS.empty (fun _ => trivial)
     exact ⟨this.1, this.2.2⟩
 
+/-- generated-table obligations: the shipped default `name_fn` is the percent-encoded `repr`, and `parallelise`
+refuses a cache when two inputs share a key -/
+theorem C19_naming_facts : Gen.nameScheme = .quotedRepr ∧ Gen.refusesDuplicateKeys = true := ⟨rfl, rfl⟩
+
+/-- DEFAULT NAMES ARE INJECTIVE: two keys with different `repr` never get the same file name (percent-encoding
+has a left inverse).  What is trusted is only that Python's `repr` tells the keys apart (1 vs '1'). -/
+theorem C19_default_names_injective (str repr : κ → List Nat) (hbytes : ∀ k, ∀ b ∈ repr k, b < 256)
+    (hrepr : Function.Injective repr) : Function.Injective (defaultName Gen.nameScheme str repr) := by
+  intro a b h
+  simp only [C19_naming_facts.1, defaultName] at h
+  exact hrepr (pctEncode_injective _ _ (hbytes a) (hbytes b) (List.append_cancel_right h))
+
+/-- DEFAULT NAMES ARE PATH-SAFE: no path separator, no NUL byte, whatever the key's text is -/
+theorem C19_default_names_path_safe (str repr : κ → List Nat) (hbytes : ∀ k, ∀ b ∈ repr k, b < 256) (k : κ) :
+    47 ∉ defaultName Gen.nameScheme str repr k ∧ 92 ∉ defaultName Gen.nameScheme str repr k ∧
+    0 ∉ defaultName Gen.nameScheme str repr k := by
+  simp only [C19_naming_facts.1, defaultName, List.mem_append, List.mem_cons, List.mem_nil_iff, not_or]
+  have key : ∀ x, x ∈ pctEncode (repr k) → x ≠ 47 ∧ x ≠ 92 ∧ x ≠ 0 := by
+    intro x hx
+    rcases pctEncode_bytes (repr k) (hbytes k) x hx with h | h | h | h
+    · omega
+    · omega
+    · omega
+    · refine ⟨?_, ?_, ?_⟩ <;> (intro e; subst e; simp [safeByte] at h)
+  refine ⟨⟨fun h => (key 47 h).1 rfl, by decide⟩, ⟨fun h => (key 92 h).2.1 rfl, by decide⟩,
+    ⟨fun h => (key 0 h).2.2 rfl, by decide⟩⟩
+
+/-- TRANSPARENT WITHOUT A NAMING HYPOTHESIS: `parallelise` as shipped (default names, key check) on an empty
+cache directory either refuses the cache (repeated keys) or returns exactly what the uncached run returns, and
+the rerun recomputes nothing — for EVERY input list. -/
+theorem C19_checked_run_transparent (size : β → Nat) (fn : α → β) (str repr : κ → List Nat)
+    (inputs : List (κ × α)) :
+    let nm := named (defaultName Gen.nameScheme str repr) inputs
+    parallelise Gen.refusesDuplicateKeys Gen.saveMode size fn (FS.empty : FS (List Nat) β) nm = none ∨
+    ∃ r, parallelise Gen.refusesDuplicateKeys Gen.saveMode size fn (FS.empty : FS (List Nat) β) nm = some r ∧
+      r.out = .ok (uncached fn nm) ∧
+      (run Gen.saveMode size fn r.fs nm).out = .ok (uncached fn nm) ∧ (run Gen.saveMode size fn r.fs nm).calls = [] := by
+  intro nm
+  simp only [parallelise, C19_naming_facts.2, Bool.true_and]
+  by_cases hnd : (nm.map (·.1)).Nodup
+  · right
+    simp only [hnd, decide_true, Bool.not_true, Bool.false_eq_true, if_false]
+    refine ⟨_, rfl, ?_⟩
+    cases hi : nm with
+    | nil => simp [run, uncached]
+    | cons kv0 rest =>
+      rw [← hi]
+      have hr := respects_of_separate nm kv0.2 (nodup_keys_separate nm hnd)
+      exact C19_transparent Gen.saveMode size fn _ nm hr FS.empty (fun _ => trivial)
+  · left
+    simp [hnd]
+
+/-- ... and keys that are all different are never refused: the refusal is only about repeated keys -/
+theorem C19_distinct_keys_not_refused (size : β → Nat) (fn : α → β) (str repr : κ → List Nat)
+    (hbytes : ∀ k, ∀ b ∈ repr k, b < 256) (hrepr : Function.Injective repr) (inputs : List (κ × α))
+    (hk : (inputs.map (·.1)).Nodup) (fs : FS (List Nat) β) :
+    parallelise Gen.refusesDuplicateKeys Gen.saveMode size fn fs (named (defaultName Gen.nameScheme str repr) inputs)
+      = some (run Gen.saveMode size fn fs (named (defaultName Gen.nameScheme str repr) inputs)) := by
+  have hinj := C19_default_names_injective str repr hbytes hrepr
+  have : ((named (defaultName Gen.nameScheme str repr) inputs).map (·.1)).Nodup := by
+    have e : (named (defaultName Gen.nameScheme str repr) inputs).map (·.1)
+        = (inputs.map (·.1)).map (defaultName Gen.nameScheme str repr) := by
+      simp [named, List.map_map, Function.comp_def]
+    rw [e]
+    exact nodup_map_of_injective _ hinj _ hk
+  simp [parallelise, this]
+
+/-- the pinned tree's naming `str(k) + ".p"` is NOT injective over keys of different type: 1 and '1' have the same
+`str` (kept as the reason the repair exists) -/
+theorem C19_plain_names_collide :
+    ∃ (str repr : Bool → List Nat), Function.Injective repr ∧
+      defaultName .plainStr str repr true = defaultName .plainStr str repr false :=
+  ⟨fun _ => [49], fun b => if b then [49] else [39, 49, 39],
+    by intro a b h; cases a <;> cases b <;> simp_all, rfl⟩
+
 /-- ... and a naming that maps two keys with different inputs to ONE file is not transparent: the second key is
 served the first key's result (keys 0 and 1 both named 7; fn = +1). -/
 theorem C19_colliding_names_not_transparent :
